@@ -28,11 +28,11 @@ def run(prop, tier, seed, t0):
     cov = {
         'evaluations': res.stat('schedules'),
         'distinct_nontrivial': res.stat('distinct_schedules'),
-        'rule': 'client programs from the grammar {add, tryAdd, joinJobs, resize(1..3), add of a job that itself posts} x pools (1..3 threads, queue 0..2) x 1..3 posting threads; each program under many seeded schedules of a serialising scheduler that models POSIX (cond_signal wakes ANY one waiter, spurious wake-ups) with uniform and PCT (0..3 change points) strategies; '
+        'rule': 'client programs from the grammar {add, tryAdd, joinJobs, resize(1..3), add of a job that itself posts} x pools (1..3 threads, queue 0..2) x 1..3 posting threads; one program in five instead has the k-th worker-thread creation refused (EAGAIN) inside POOL_create, which must fail with every started worker joined; each program under many seeded schedules of a serialising scheduler that models POSIX (cond_signal wakes ANY one waiter, spurious wake-ups) with uniform and PCT (0..3 change points) strategies; '
                 'distinct non-trivial = distinct (program, hash of the full (thread,op,object) event sequence) interleavings actually executed (deterministic builds); TSan/ASan stress runs counted in evaluations only',
         'programs': res.ncells('program'), 'pool_configs': res.cells.get('config', {}), 'deterministic_schedules': det, 'sched_steps': res.stat('sched_steps'),
         'schedules_with_a_cond_wait': res.stat('schedules_with_cond_wait'), 'cond_waits': res.stat('cond_waits'), 'mutex_blocks': res.stat('mutex_blocks'), 'spurious_wakeups_injected': res.stat('spurious_wakeups'), 'preemptions': res.stat('preemptions'),
-        'jobs_accepted': res.stat('jobs_accepted'), 'jobs_refused_by_tryAdd': res.stat('jobs_refused'),
+        'pool_creations_with_a_refused_worker_thread': res.stat('create_faults'), 'create_fault_cells': res.cells.get('create_fault', {}), 'jobs_accepted': res.stat('jobs_accepted'), 'jobs_refused_by_tryAdd': res.stat('jobs_refused'),
     }
     assumptions = ['the shim\'s model of POSIX mutex/condition-variable semantics (signal wakes any one waiter; spurious wake-ups allowed)', 'schedules are sampled (uniform + PCT), not enumerated',
                    'scheduling points are the pthread calls: interleavings of unsynchronised accesses between them are left to TSan', 'TSan sees only executed paths']
